@@ -6,7 +6,7 @@ ASSUME = [
     "one experiment in one namespace; trial names returned by the algorithm are fresh and distinct (the harness generates them so); the empty "
     "trial-name fallback <suggestion>-<rand8> is not exercised",
     "the early-stopping service only stops trials that are created, running in the store's view and not completed, by appending the EarlyStopped "
-    "condition (pkg/earlystopping medianstop SetTrialStatus); the metrics DB receives the log of a trial at most once",
+    "condition (pkg/earlystopping medianstop SetTrialStatus); the metrics of a trial arrive progressively: the first report creates its DB entry (with or without an objective value), a later report can only add the objective value to an entry that has none (an objective value once stored is never changed)",
     "objective values and goal are multiples of 1/8 with small magnitude (exact in binary64); NaN/Inf excluded by the property",
     "the only spec edit is the user raising maxTrialCount; deleteTrials (needs parallelTrialCount to be lowered) is modelled as an unreachable marker",
     "theorems over runs carry no_teardown (no DeleteExperiment / garbage collection of trials) and valid_cfg (what the webhooks admit, C14)",
